@@ -121,7 +121,7 @@ pub fn replay_case(ctx: &mut Ctx, gi: &GInfo, rule: usize, doc: &Value) -> Optio
         "C07" => p07::check_input(ctx, gi, rule, input),
         "C08" => p08::replay(ctx, gi, rule, doc),
         "C09" => p09::replay(ctx, gi, rule, doc),
-        "C10" => p10::check_input(ctx, gi, rule, input),
+        "C10" => p10::replay(ctx, gi, rule, doc),
         "C11" => p11::replay(ctx, gi, rule, doc),
         "C15" => p15::check_input(ctx, gi, rule, input),
         "C16" => p16::check_input(ctx, gi, rule, input),
